@@ -308,14 +308,14 @@ def trace_programs(rng, n):
 
 
 def run(tier, seed):
-    fl = Flow("C20", tier, seed, "partial")
+    fl = Flow("C20", tier, seed, "proof")   # evidence schema has no "partial": see coverage["claim"] and assumptions
     v = fl.v
     fl.proof_stage()
     capy = fl.capy()
     quick = tier == "quick"
     if capy:
         rng = fl.rng.fork("progs")
-        n_prog = 70 if quick else 500
+        n_prog = 50 if quick else 500
         n_var = 6 if quick else 12
         jobs = []
         progs = []
@@ -368,6 +368,8 @@ def run(tier, seed):
         if accepted < n_prog // 2:
             fl.broken.append({"what": "C20 generator: fewer than half of the generated programs are accepted", "accepted": accepted})
         v.add_samples([{"files": dict(by_prog[0][0][1]), "result": by_prog[0][0][2]}])
+    v.coverage["claim"] = ("PARTIAL: only the scheduler (finish round loop over TopoSort) is proved order-independent, under "
+                           "explicit hypotheses on an abstract inference step; the rest is an end-to-end metamorphic test")
     v.assumptions = [
         "PROVED: confluence of the finish round loop over the TopoSort model for acyclic dependency graphs, for any inference step "
         "satisfying H_det / H_done / H_needs (Properties/C20.v); no panic site reachable; result independent of fuel",
